@@ -100,7 +100,9 @@ pub fn check(c: &(M, M), obs: &mut Obs) -> Result<(), String> {
         hex(&kb)
     );
     // classification by exact structural signature
-    if zero_pair_before_diff(a, b) {
+    // a 0 / -0.0 pair ahead of the first difference explains the disagreement only if the two
+    // zeros really get different keys (they did before the F14b repair)
+    if zero_pair_before_diff(a, b) && key(&M::Num(N::U(0)))? != key(&M::Num(N::F(-0.0)))? {
         return known::tolerate("C14", "F14b", obs, format!("0 and -0.0 compare Equal but get different keys: {msg}"));
     }
     match first_diff(a, b) {
